@@ -100,6 +100,12 @@ func checkC20(c *Ctx) error {
 			cfg.Service{Name: "viaField", Constructor: cfg.P(`"fixt/pa".New`), Fields: []cfg.KV{{K: "F1", V: cfg.Str("@ctxdep")}}, Getter: cfg.P("GetViaField"), Type: cfg.P(`*"fixt/pa".Obj`), MustGetter: cfg.P(true)},
 			cfg.Service{Name: "viaCall", Constructor: cfg.P(`"fixt/pa".New`), Calls: []cfg.Call{{Method: "Set", Args: []cfg.Val{cfg.Str("@viaTagged")}}}, Getter: cfg.P("GetViaCall"), Type: cfg.P(`*"fixt/pa".Obj`)})
 		conf.Decorators = append(conf.Decorators, cfg.Decorator{Tag: "ctxdectag", Decorator: `"fixt/pa".DecSame`, Args: []cfg.Val{cfg.Str("@ctxdep")}})
+		// several shared services whose constructors write into the object they are given, each given its own `!value &T{}`
+		// (the same text at every position): what one of them is given is nobody else's
+		for k := 0; k < 6; k++ {
+			conf.Services = append(conf.Services, cfg.Service{Name: fmt.Sprintf("toucher%d", k), Constructor: cfg.P(`"fixt/pa".NewTouch`),
+				Args: []cfg.Val{cfg.Str(`!value &"fixt/pa".Obj{}`), cfg.Int(int64(k))}, Scope: cfg.P("shared")})
+		}
 		// a placeholder that the application replaces, before any concurrent use, by a CONTEXTUAL definition (the documented
 		// OverrideService workflow), and a dependant without a scope of its own: it is contextual from then on
 		conf.Services = append(conf.Services,
@@ -210,7 +216,7 @@ func checkC20(c *Ctx) error {
 			continue
 		}
 		if len(u.Results) == 0 {
-			c.Side("C01", "probe:"+sigWords(u.ProbeErr), fmt.Sprintf("unit %s: %s", u.ID, u.ProbeErr), files)
+			c.Violate("probe:"+sigWords(u.ProbeErr), fmt.Sprintf("unit %s: %s", u.ID, u.ProbeErr), files)
 			continue
 		}
 		pl := plans[u.ID]
